@@ -283,7 +283,7 @@ SPECS = [
     RuleSpec("C13.R1", rule_r1, 4, "A3", "copy first: every mutation is rooted in a deep copy, the copy is returned"),
     RuleSpec("C13.R2", rule_r2, 18, "A7", "operator table: offset/length divided, bpm multiplied by the unmodified rate, on all lists"),
     RuleSpec("C13.R3", rule_r3, 3, "A8", "per-chart propagation with the same rate; overrides call the base"),
-    RuleSpec("C13.R4", rule_r4, 5, "A1", "file-level time fields of osu and StepMania scale with the rate"),
+    RuleSpec("C13.R4", rule_r4, 5, "A1", "file-level time fields of osu and StepMania scale with the rate; a sentinel guard lets every real time through and stops the sentinel"),
     RuleSpec("C13.D", rule_dep, 1, "M0", "rules of the shared code (timing engine, list classes, stacker) that the operations of this property reach"),
 ]
 
